@@ -1,7 +1,8 @@
-\* bulk judging: the verdicts are data (RESULT lines); see MIRTraceVerdict.cfg
+\* the verdict on single programs: invariant C02 of MIRTrace.tla
 SPECIFICATION Spec
 CONSTANTS
   MaxDepth = 3000
+INVARIANT C02
 ALIAS Shown
 POSTCONDITION AllJudged
 CHECK_DEADLOCK FALSE
